@@ -6,7 +6,7 @@ Local Close Scope Z_scope.
 Local Open Scope nat_scope.
 
 Definition ret_build (p : pc) : option nat :=
-  match p with PRet (RvBuild b _ _) => Some b | _ => None end.
+  match p with PRet (RvBuild b _ _) | PWaRet (RvBuild b _ _) => Some b | _ => None end.
 
 Ltac expose_all :=
   try (unfold finish_rebuild, ret, result_of in *);
